@@ -37,9 +37,26 @@ def generate(r, tier, build):
     return reqs
 
 
+def special_states():
+    """states at the corners of the representation, saved fresh and after a history: the all-zero Xoshiro256 state (reachable through
+    from_rng over an all-zero source), unit and all-ones words, the literals of the current source; 0 / all ones for the 64-bit generators"""
+    from . import harvest
+    reqs = []
+    words = [0, 1, C.M64, 1 << 63] + harvest.literals(C.REPO)[:24]
+    sts = [[0, 0, 0, 0], [C.M64] * 4] + [[w if i == p else 0 for i in range(4)] for w in words[1:] for p in range(4)]
+    for st in sts:
+        for before, after in (("", "u64,u32,fill:13,jump,f64"), ("u64,fill:5,jump", "u32,u64,fill:9")):
+            reqs.append("serde gen=xoshiro state=%s before=%s after=%s" % (",".join(map(str, st)), before, after))
+    for gen in ("splitmix", "wyrand", "xoshiro"):
+        for w in words:
+            reqs.append("serde gen=%s seed=%d before= after=u64,u32,fill:3" % (gen, w))
+            reqs.append("serde gen=%s seed=%d before=u64,jump after=u64,fill:11" % (gen, w))
+    return reqs
+
+
 def corpus(build):
     z = "0,0,0,0,0,0,0,0"
-    return ["serde gen=chacha n=12 seed=42 before= after=u32",
+    return special_states() + ["serde gen=chacha n=12 seed=42 before= after=u32",
             "serde gen=chacha n=20 key=%s ctr=0 str=0 before=fill:256 after=u32" % z,     # index still out of range after a direct fill
             "serde gen=chacha n=8 key=%s ctr=0 str=0 before=fill:255,fill:1 after=u64" % z,  # index == 256 exactly
             "serde gen=xoshiro seed=0 before= after=u64"]
@@ -54,6 +71,9 @@ def oracle(req, impl, build):
     if len(parts) != 6:
         return None if impl == "panic" else "malformed result"
     j1, o1, o2, o3, j2, j3 = parts
+    ms = __import__("re").search(r" state=([\d,]+)", req)
+    if ms and req.startswith("serde gen=xoshiro") and "before= " in req and ms.group(1) not in j1.replace(" ", ""):
+        return "the serialised text %s does not carry the generator's state %s" % (j1[:120], ms.group(1))
     if o2 != o3:
         return "restored generator diverges from the original under the same continuation"
     if j2 != j3:
